@@ -156,7 +156,7 @@ def hyp_histories(ctx, n):
         res = check(seq, records, ipm, blocked, real, scratch)
         if res:
             ctx.fail(res[0], {'seq': seq, 'lens': lens, 'ipm': ipm, 'blocked': blocked, 'real': real}, res[1])
-    strat = st.tuples(st.lists(st.one_of(st.sampled_from([1, 4, 1004, 1008, 1012, 2024]), st.integers(1, 3000)), max_size=8),
+    strat = st.tuples(st.lists(st.one_of(st.sampled_from([1, 4, 1004, 1008, 1012, 2024]), st.sampled_from(range(1, 3001))), max_size=8),
                       st.sampled_from(SEQS + ['CCCC', 'XCXC', 'CXCX', 'XXXX']), st.booleans(), st.booleans(), st.booleans())
     try:
         harness.drive(ctx, strat, body, n, salt='hist')
